@@ -36,7 +36,7 @@ KANI_ASSUMES = ["A6", "A9"]
 # Functions a property depends on that are NOT (yet) under a discharged contract: reported in every evidence file
 # so the gap is visible; they are never counted as proved.
 V5_REST = "v5: ConnackProperties::encode is proved on a text in which each of its 16 conditional property writes is outlined into a helper function (rewrite rule R30, tokens of the statements unchanged; assumption A11); Packet::get_type is not under contract (the PollHeader::new_with forwarders of src/v3/poll.rs and src/v5/poll.rs are checked against the header table by the complete Kani harnesses poll.v3.new_with / poll.v5.new_with)"
-LEMMAS = "spec-level composition lemmas: round trip p_X(enc_X(x)+rest)==Ok(x,|enc|) is proved (unit lem3) for the primitives, the fixed header and every v3 packet type as a whole packet with trailing bytes, and (unit lem5) for each of the 14 v5 property sections (any number of user properties), for the v5 bodies PUBACK/PUBREC/PUBREL/PUBCOMP/CONNACK/SUBACK/UNSUBACK/DISCONNECT/AUTH/PUBLISH/UNSUBSCRIBE and, as whole packets with fixed header and trailing bytes (p5_packet(enc_packet5(P)+rest)==Ok(P,|enc|)), for these eleven types plus PINGREQ/PINGRESP; v5 CONNECT and v5 SUBSCRIBE have no whole-body lemma (SUBSCRIBE: the subscription-options byte round trip lemma_subopts_roundtrip is proved, the list induction exceeded the resource limit); framing of a stream of back-to-back packets (decode n packets advancing by the reported length == the encoded sequence, lengths add up, trailing bytes untouched, empty input => Incomplete) is proved by induction over the packet list for every v3 packet type (lemma_v3_stream_framing) and for the thirteen covered v5 types (lemma_v5_stream_framing); prefix=>Incomplete for the primitives and every v3 packet type; for v5 prefixes and |enc| <= consumed the property is decided per function (encoder == enc_X, decoder == p_X, decoded value valid() for the encoder) and the composition is by inspection of the two specs"
+LEMMAS = "spec-level composition lemmas: round trip p_X(enc_X(x)+rest)==Ok(x,|enc|) is proved (unit lem3) for the primitives, the fixed header and every v3 packet type as a whole packet with trailing bytes, and (unit lem5) for each of the 14 v5 property sections (any number of user properties), for the v5 bodies PUBACK/PUBREC/PUBREL/PUBCOMP/CONNACK/SUBACK/UNSUBACK/DISCONNECT/AUTH/PUBLISH/SUBSCRIBE/UNSUBSCRIBE and, as whole packets with fixed header and trailing bytes (p5_packet(enc_packet5(P)+rest)==Ok(P,|enc|)), for these twelve types plus PINGREQ/PINGRESP; v5 CONNECT has no whole-body lemma (its property sections and will properties have); framing of a stream of back-to-back packets (decode n packets advancing by the reported length == the encoded sequence, lengths add up, trailing bytes untouched, empty input => Incomplete) is proved by induction over the packet list for every v3 packet type (lemma_v3_stream_framing) and for the fourteen covered v5 types, all but CONNECT (lemma_v5_stream_framing); prefix=>Incomplete for the primitives and every v3 packet type; for v5 prefixes and |enc| <= consumed the property is decided per function (encoder == enc_X, decoder == p_X, decoded value valid() for the encoder) and the composition is by inspection of the two specs"
 GAPS = {
     "C01": [V5_REST, LEMMAS, "poll body phase is bounded (body length <= 4 quick, <= 8 thorough)"],
     "C02": [V5_REST, "F5-style oversize property sections: encode_len's precondition valid() excludes sections >= 2^28 bytes (the crate panics there instead of returning an error; not exercised by any obligation)"],
